@@ -367,6 +367,9 @@ def run(tier, seed):
     cases += mut_cases(tl["mut"], gram, tier, rng, cov)
     cases += lit_cases(tier, rng)
     cases += corpus_cases(tier, rng)
+    if os.environ.get("C43_LIMIT"):          # development aid: a seeded sample of every family
+        n = int(os.environ["C43_LIMIT"])
+        cases = [c for fam in ("gram", "mut", "lit", "corpus") for c in core.sample([x for x in cases if x.family == fam], n, rng)]
     for i, c in enumerate(cases):
         c.id = i
     wd = core.subdir("c43")
@@ -480,8 +483,11 @@ def run(tier, seed):
     kindf = os.path.join(wd, "kinds.ndjson")
     core.write_ndjson(recf, trecs)
     core.write_ndjson(kindf, [list(k) for k, _ in sorted(kinds_index.items(), key=lambda kv: kv[1])])
-    tr = core.tlc_or_die("Pipeline_Trace", cfg="Pipeline_Trace", env={"RECORDS": recf, "KINDS": kindf}, workers=1, timeout=3000,
-                         heap="6g")
+    tr = core.tlc("Pipeline_Trace", cfg="Pipeline_Trace", env={"RECORDS": recf, "KINDS": kindf}, workers=1, timeout=3000, heap="6g")
+    if not tr.ok:
+        errs = [l for l in tr.out.splitlines() if "rror" in l or "xception" in l][:20]
+        sys.stderr.write("\n".join(errs) + "\n" + tr.out[-1500:])
+        core.die("TLC failed on Pipeline_Trace (%s)" % (tr.violation or tr.rc))
     if not tr.printed:
         core.die("Pipeline_Trace.tla did not publish verdicts")
     verdict = tr.printed[-1]
